@@ -51,6 +51,8 @@ func VerifHarness_C19_CosineRange2() { c19CosineRange(2, 1e6) }
 func VerifHarness_C19_CosineShapes() {
 	a := []float32{c19Finite32("a0"), c19Finite32("a1")}
 	verifAssert(CosineSimilarity(a, a[:1]) == 0, "C19: similarity of vectors of different length is 0")
+	verifAssert(CosineSimilarity(a[:1], a) == 0, "C19: similarity of vectors of different length is 0 (second one longer)")
+	verifAssert(CosineSimilarity([]float32{1, 2}, []float32{1, 2, 3}) == 0, "C19: similarity of vectors of different length is 0 (second one longer)")
 	verifAssert(CosineSimilarity(nil, nil) == 0, "C19: similarity of empty vectors is 0")
 	verifAssert(CosineSimilarity(a, []float32{0, 0}) == 0, "C19: similarity with a zero vector is 0")
 	verifReach("cosine")
